@@ -379,6 +379,117 @@ def rule_r5(ctx: Ctx, a: Automaton) -> None:
         ctx.check(shown == must, "grammar." + rule, " ".join(shown), "blanks are required between type and name and optional around `=`", "%s:%d" % (g.path, g.lines.get(rule, 0)), nontrivial=False)
 
 
+# ----------------------------------------------------------------------------------------------------------------------
+def _doc_text(c: str) -> str:
+    return c[1:] if c.startswith(" ") else c
+
+
+def _expected_document(lines: List[Any]) -> Tuple[List[Tuple[str, str, str]], List[str]]:
+    """the Specification's reading of an abstract text: [(kind, name, documentation)] in source order and the header
+    documentation of each section.  A comment block documents the attribute it directly follows (same line or the lines
+    right below it) and ends at the first line that is empty, blank, or carries a statement; the comment block at the very top
+    of a section documents the section; any other comment documents nothing."""
+    attrs: List[Tuple[str, str, str]] = []
+    headers: List[str] = []
+    kinds = {"F": "Field", "K": "Constant", "P": "PaddingField"}
+    i = 0
+    n = len(lines)
+    section_start = True
+    head: List[str] = []
+    while i <= n:
+        ln = lines[i] if i < n else None
+        if section_start:
+            # header: the run of comment-only lines at the top of the section (after `---`: starting on the marker's line)
+            j = i
+            while j < n and lines[j].kind == "C":
+                head.append(_doc_text(lines[j].comment))
+                j += 1
+            headers.append("\n".join(head))
+            head = []
+            section_start = False
+            i = j
+            continue
+        if ln is None:
+            break
+        if ln.kind in kinds:
+            doc = [_doc_text(ln.comment)] if ln.comment is not None else []
+            j = i + 1
+            while j < n and lines[j].kind == "C":
+                doc.append(_doc_text(lines[j].comment))
+                j += 1
+            attrs.append((kinds[ln.kind], ln.name if ln.kind != "P" else "", "\n".join(doc)))
+            i = j
+            continue
+        if ln.kind == "M":
+            section_start = True
+            if ln.comment is not None:
+                head.append(_doc_text(ln.comment))
+            i += 1
+            continue
+        i += 1  # empty / blank / directive / stray comment lines
+    return attrs, headers
+
+
+def rule_r6(ctx: Ctx) -> None:
+    """the parser and the builder evaluated over abstract texts: which attribute ends up where, with which documentation"""
+    from itertools import product
+
+    from .parser_common import Line, ParserModel, read_lines, text_of
+
+    ctx.rule("C03.R6", "every attribute statement appears exactly once, in source order, in its own section, with the comment block attached to it; the section headers get the top comment block; empty lines, blank lines, extra comments and the presence of a final newline do not change the model (abstract texts: all sequences of line shapes up to a bound, messages and services)", min_instances=2)
+    pm = ParserModel(ctx)
+    alphabet = ["F", "Ft", "K", "P", "C", "B", "W"]
+
+    def mk(seq: Any, prefix: str) -> List[Any]:
+        out = []
+        for i, k in enumerate(seq):
+            nm = "%s%d" % (prefix, i)
+            if k == "Ft":
+                out.append(Line("F", nm, comment=" t%d" % i))
+            elif k == "C":
+                out.append(Line("C", comment=" c%d" % i if i % 2 else "c%d" % i))
+            else:
+                out.append(Line(k, nm))
+        return out
+
+    bound = 3 if ctx.tier == "thorough" else 2
+    bodies = [list(s) for L in range(0, bound + 1) for s in product(alphabet, repeat=L)]
+    extra = [["F", "C", "C", "B", "C", "K"], ["C", "C", "B", "C", "F"], ["Ft", "C", "W", "C", "F"], ["C", "W", "C", "F", "C"], ["F", "B", "B", "C", "P", "C"], ["K", "C", "P", "Ft", "C", "C"], ["W", "C", "F"], ["F", "C", "B"], ["F", "C", "W"]]
+    scripts: List[Tuple[str, List[Any]]] = []
+    for body in bodies + extra:
+        for sealed_first in (True, False):
+            ls = mk(body, "a")
+            scripts.append(("message", ([Line("D")] + ls) if sealed_first else (ls + [Line("D")])))
+    svc_bodies = [list(s) for L in range(0, bound + 1) for s in product(["F", "Ft", "K", "C", "B"], repeat=L)]
+    for body in svc_bodies:
+        for sealed_first in (True, False):
+            rq = mk(body, "q")
+            rq = ([Line("D")] + rq) if sealed_first else (rq + [Line("D")])
+            for marker in (Line("M"), Line("M", comment=" rh")) if len(body) <= 1 or ctx.tier == "thorough" else (Line("M"),):
+                scripts.append(("service", rq + [marker] + [Line("C", comment=" rh2"), Line("F", "r0"), Line("C", comment=" dr"), Line("D")]))
+                if sealed_first:
+                    scripts.append(("service", [Line("D"), Line("F", "x"), Line("C", comment=" dx")] + [marker] + mk(body, "r") + [Line("D")]))
+    bad_model: List[Dict[str, Any]] = []
+    bad_format: List[Dict[str, Any]] = []
+    n_runs = 0
+    for kind, lines in scripts:
+        want_attrs, want_headers = _expected_document(lines)
+        for final_eol in (False, True) if kind == "message" or ctx.tier == "thorough" else (len(lines) % 2 == 0,):
+            r = read_lines(pm, lines, final_eol)
+            n_runs += 1
+            ctx.count()
+            sections = [c for c in r.composites if c[0] in ("StructureType", "UnionType")]
+            got_headers = [c[2] for c in sections]
+            if r.raised or r.attrs != want_attrs or got_headers != want_headers:
+                d = {"text": text_of(lines, final_eol), "found": {"attributes": r.attrs, "section docs": got_headers, "raised": r.raised}, "expected": {"attributes": want_attrs, "section docs": want_headers}}
+                # a text that differs from an accepted one only in blanks on an otherwise empty line is a formatting matter
+                (bad_format if any(l.kind == "W" for l in lines) and not r.raised else bad_model).append(d)
+    fn = ctx.func("_parser._ParseTreeProcessor.visit_line")
+    ctx.check(not bad_model, "_parser._ParseTreeProcessor x _data_type_builder.DataTypeBuilder", "%d abstract texts x 2 endings" % len(scripts), "each attribute once, in order, in its section, with its own comment block; section docs from the top comment block", "pydsdl/_parser.py", bad_model[:3])
+    ctx.check(not bad_format, fn.short, "a line of blanks reads like an empty line", "blanks on an otherwise empty line are formatting: the model must not change", fn.where(), bad_format[:3])
+    ctx.analysed["C03.R6.runs"] = n_runs
+
+
 def run(ctx: Ctx) -> None:
     a = rule_r1(ctx)
     ctx.attempt(rule_r2, ctx, a)
@@ -388,5 +499,6 @@ def run(ctx: Ctx) -> None:
     c05b.rule_r8_directives(ctx, rid="C03.R3")
     ctx.attempt(rule_r4, ctx)
     ctx.attempt(rule_r5, ctx, a)
+    ctx.attempt(rule_r6, ctx)
     ctx.assume("parsimonious visits children before their parent, left to right (NodeVisitor.visit as written in nodes.py)")
-    ctx.undecided("equality of the re-parsed canonical rendering (a round trip over values); comment text attachment beyond 'exactly once, to the attribute pending at flush time'")
+    ctx.undecided("equality of the re-parsed canonical rendering (a round trip over values)")
